@@ -123,6 +123,9 @@ SCRIPTS = [
     {'submitters': {'S1': [('a', None)], 'S2': [('b', 'base')]}},
     {'submitters': {'S1': [('a', 'exc'), ('b', None), ('c', 'exc')]}},
     {'submitters': {'S1': [('a', None), ('b', 'exc')], 'S2': [('c', None)]}},
+    # two application threads hand over one snapshot each at the same time (no flush: fewer threads, so that the
+    # line-level exploration reaches every preemption inside submit_task)
+    {'submitters': {'S1': [('a', None)], 'S2': [('b', None)]}, 'flush': False},
 ]
 
 
@@ -290,7 +293,7 @@ def run(c):
                           what='FlushNeverRaises')
     explore(c, SCRIPTS[:4] if quick else SCRIPTS, line_level=False, max_preemptions=2 if quick else 3,
             max_runs=250 if quick else 4000, kind='gate-schedule')
-    explore(c, SCRIPTS[1:3] if quick else SCRIPTS[:5], line_level=True, max_preemptions=1 if quick else 2,
+    explore(c, [SCRIPTS[6]] + SCRIPTS[1:3] if quick else [SCRIPTS[6]] + SCRIPTS[:5], line_level=True, max_preemptions=1 if quick else 2,
             max_runs=200 if quick else 3000, kind='line-schedule')
     real_pool_smoke(c, rng, 15 if quick else 150)
 
